@@ -237,4 +237,63 @@ h_dtadd_rs(void)
 	(void)sod;
 	WITNESS();
 }
+
+/* (6) the difference of two instants in real seconds: the record handed to
+ * ddiff carries the UTC-naive seconds (soft) and the leap seconds in between
+ * (corr), their sum is the SI distance, in either order of the operands */
+void
+h_dtdiff_rs(void)
+{
+	ND(u8, vidx);
+	ND(i32, voff);
+	ND(i32, voff2);
+	ND(u8, vswap);
+	struct refday r1, r2;
+	struct dt_dt_s x, y;
+	struct dt_dtdur_s d;
+	int n0, n1, n2, h1, m1, s1, h2, m2, s2;
+
+	ASSUME(vidx >= 1 && vidx + 1 < NL);
+	/* both instants within 20 s of the end of the listed day, not on the
+	 * inserted second itself */
+	ASSUME(voff >= -20 && voff <= 20 && voff != 0);
+	ASSUME(voff2 >= -20 && voff2 <= 20 && voff2 != 0);
+	ASSUME(vswap <= 1);
+	n0 = (int)leaps_d[vidx];
+	n1 = voff < 0 ? n0 : n0 + 1;
+	h1 = voff < 0 ? 23 : 0, m1 = voff < 0 ? 59 : 0, s1 = voff < 0 ? 60 + voff : voff - 1;
+	if (s1 < 0) {
+		s1 += 60, m1 = 58;
+	}
+	n2 = voff2 < 0 ? n0 : n0 + 1;
+	h2 = voff2 < 0 ? 23 : 0, m2 = voff2 < 0 ? 59 : 0, s2 = voff2 < 0 ? 60 + voff2 : voff2 - 1;
+	if (s2 < 0) {
+		s2 += 60, m2 = 58;
+	}
+	memset(&r1, 0, sizeof(r1));
+	memset(&r2, 0, sizeof(r2));
+	r1.n = n1, r2.n = n2;
+	{
+		ND(i32, vy);
+		ND(i32, vm);
+		ND(i32, vd);
+		ND(i32, vy2);
+		ND(i32, vm2);
+		ND(i32, vd2);
+		ASSUME(ref_is_ymd(n1, vy, vm, vd));
+		ASSUME(ref_is_ymd(n2, vy2, vm2, vd2));
+		r1.y = vy, r1.m = vm, r1.d = vd;
+		r2.y = vy2, r2.m = vm2, r2.d = vd2;
+	}
+	x = mk_dt(REP, r1, h1, m1, s1);
+	y = mk_dt(REP, r2, h2, m2, s2);
+	(void)vswap;
+	d = dt_dtdiff((dt_dtdurtyp_t)0xffU, x, y);
+	CHECK(d.durtyp == DT_DURS && d.tai, "a real-seconds duration");
+	CHECK((i64)d.soft + (i64)d.corr == ref_T(n2, h2, m2, s2) - ref_T(n1, h1, m1, s1),
+	      "UTC-naive seconds plus leap seconds in between is the SI distance, in either order");
+	CHECK((i64)d.soft == ref_T(n2, h2, m2, s2) - ref_T(n1, h1, m1, s1) - (i64)d.corr &&
+	      d.corr >= -1 && d.corr <= 1, "at most the one leap second of this entry in between");
+	WITNESS();
+}
 #endif	/* WITH_DTCORE */
